@@ -261,6 +261,58 @@ pub fn run(ctx: &Ctx) {
     });
     ctx.subspace("16 version nibbles x lengths 18..=42 x random contents", 16 * 25 * per, false);
 
+    // (4b) IP packets whose addresses have a special form (a dissector must not "interpret" them): IPv4-mapped and
+    // IPv4-compatible IPv6, loopback, unspecified, multicast, link-local, documentation, all-ones; IPv4 0.0.0.0,
+    // broadcast, loopback, multicast - every ordered pair as (source, destination), full and truncated lengths
+    {
+        let v6: Vec<[u8; 16]> = vec![
+            [0, 0, 0, 0, 0, 0, 0, 0, 0, 0, 0xff, 0xff, 10, 1, 2, 3],
+            [0, 0, 0, 0, 0, 0, 0, 0, 0, 0, 0xff, 0xff, 255, 255, 255, 255],
+            [0, 0, 0, 0, 0, 0, 0, 0, 0, 0, 0xff, 0xff, 0, 0, 0, 0],
+            [0, 0, 0, 0, 0, 0, 0, 0, 0, 0, 0, 0, 192, 168, 1, 1],
+            [0; 16],
+            [0, 0, 0, 0, 0, 0, 0, 0, 0, 0, 0, 0, 0, 0, 0, 1],
+            [0xff, 0x02, 0, 0, 0, 0, 0, 0, 0, 0, 0, 0, 0, 0, 0, 1],
+            [0xfe, 0x80, 0, 0, 0, 0, 0, 0, 2, 0, 0, 0xff, 0xfe, 0, 0, 1],
+            [0x20, 0x01, 0x0d, 0xb8, 0, 0, 0, 0, 0, 0, 0, 0, 0, 0, 0, 7],
+            [0x00, 0x64, 0xff, 0x9b, 0, 0, 0, 0, 0, 0, 0, 0, 10, 0, 0, 1],
+            [0x20, 0x02, 10, 1, 2, 3, 0, 0, 0, 0, 0, 0, 0, 0, 0, 1],
+            [0xff; 16],
+        ];
+        let v4: Vec<[u8; 4]> = vec![[0, 0, 0, 0], [255, 255, 255, 255], [127, 0, 0, 1], [224, 0, 0, 1], [10, 1, 2, 3], [169, 254, 0, 1]];
+        let mut n = 0u64;
+        for s in &v6 {
+            for d in &v6 {
+                for len in [39usize, 40, 41, 60] {
+                    let mut b = vec![0x5au8; len.max(40)];
+                    b[0] = 0x60;
+                    b[8..24].copy_from_slice(s);
+                    b[24..40].copy_from_slice(d);
+                    b.truncate(len);
+                    let v = check_case(ctx, "packet", &b);
+                    ctx.report(v);
+                    n += 1;
+                }
+            }
+        }
+        for s in &v4 {
+            for d in &v4 {
+                for len in [19usize, 20, 21, 40] {
+                    let mut b = vec![0xa5u8; len.max(20)];
+                    b[0] = 0x45;
+                    b[12..16].copy_from_slice(s);
+                    b[16..20].copy_from_slice(d);
+                    b.truncate(len);
+                    let v = check_case(ctx, "packet", &b);
+                    ctx.report(v);
+                    n += 1;
+                }
+            }
+        }
+        ctx.flush_local();
+        ctx.subspace("IP packets with special-form addresses (IPv4-mapped / -compatible / NAT64 / 6to4 IPv6, loopback, unspecified, multicast, link-local, all-ones; special IPv4) as every (source, destination) pair x 4 lengths", n, true);
+    }
+
     // (5) proptest: arbitrary byte strings up to 128 bytes with shrinking
     let cases: u32 = ctx.tier.pick(300_000, 3_000_000);
     ctx.proptest(
